@@ -798,6 +798,12 @@ func Culprit(t Ty, bad func(Ty) bool) string {
 
 // CulpritPair is Culprit on (type, value) pairs, descending through Parts.
 func CulpritPair(t Ty, v Val, bad func(Ty, Val) bool) string {
+	t, _ = CulpritPairOf(t, v, bad)
+	return Head(t)
+}
+
+// CulpritPairOf answers the smallest bad (type, value) pair itself.
+func CulpritPairOf(t Ty, v Val, bad func(Ty, Val) bool) (Ty, Val) {
 	for depth := 0; depth < 32; depth++ {
 		found := false
 		for _, p := range Parts(t, v) {
@@ -810,5 +816,5 @@ func CulpritPair(t Ty, v Val, bad func(Ty, Val) bool) string {
 			break
 		}
 	}
-	return Head(t)
+	return t, v
 }
